@@ -18,7 +18,7 @@ import (
 
 // ---- targets: which of the modelled syntax features esbuild assumes the target understands
 
-var allFeats = []string{"nesting", "is", "where", "not-list", "inset", "hex-alpha", "rgb-space", "media-range"}
+var allFeats = []string{"nesting", "is", "where", "not-list", "inset", "hex-alpha", "rgb-space", "media-range", "math-fn"}
 
 type target struct {
 	name    string
@@ -330,6 +330,14 @@ func checkCases(r *core.Run, voc *Vocab, cases []*Case, stats *stats) {
 			// every chain meets a target without nesting, with and without :is()
 			cfgs = []config{{"off", []string{"chrome50", "firefox60"}[rng.Intn(2)], "css"}, {"all", "chrome90", "css"}}
 		}
+		if c.Family == "seq-d" {
+			// shorthand collapsing is part of syntax minification: every sequence meets it with and without an old target
+			old := targets[1+rng.Intn(3)].name
+			cfgs = []config{{"all", "none", "css"}, {"syntax", old, "css"}, {"all", []string{"chrome90", "chrome130"}[rng.Intn(2)], "css"}}
+			if r.Thorough() {
+				cfgs = append(cfgs, config{"all", old, "global-css"}, config{"off", old, "css"})
+			}
+		}
 		if c.Family == "regress" {
 			w.style = Style{Group: true}
 			cfgs = nil
@@ -587,14 +595,21 @@ func Run(r *core.Run) {
 	// phase B, side by side: the specification's own properties on the bounded-exhaustive families
 	// (model checking; the casc family is exported as cases) and the seeded sheets interpreted by CssGen
 	var mcCases []*Case
+	var mcMembers []*seqMember // the label records of the sequence families (CssSeq.tla)
 	var mu sync.Mutex
 	var wg sync.WaitGroup
 	skipMC := os.Getenv("C12_SKIPMC") != "" // development only
+	// the sequence families: with a fresh label table the label-first covering sample is drawn at once and computed with the sheets
+	cached := loadSeqLabels(r)
+	mcCfg := pickS(r, "CssMC.quick.cfg", "CssMC.thorough.cfg")
+	if cached == nil && !r.Thorough() {
+		mcCfg = "CssMC.quick.labels.cfg"
+	}
 	if !skipMC {
 		wg.Add(1)
 		go func() {
 			defer wg.Done()
-			runMC(r, pickS(r, "CssMC.quick.cfg", "CssMC.thorough.cfg"), r.Pick(4, 3), func(c *Case) {
+			runMC(r, mcCfg, r.Pick(4, 3), func(c *Case) {
 				var id []interface{}
 				json.Unmarshal(c.ID, &id)
 				c.Family = "mc"
@@ -603,6 +618,10 @@ func Run(r *core.Run) {
 				}
 				mu.Lock()
 				mcCases = append(mcCases, c)
+				mu.Unlock()
+			}, func(m *seqMember) {
+				mu.Lock()
+				mcMembers = append(mcMembers, m)
 				mu.Unlock()
 			})
 		}()
@@ -626,10 +645,39 @@ func Run(r *core.Run) {
 		fmt.Sscan(v, &nSheets)
 	}
 	sheets := g.Sheets(nSheets, r.Pick(4, 5))
+	var seqIn []genInput
+	var seqFam map[string]string
+	if cached != nil && !skipMC {
+		seqIn, seqFam = seqSample(r, cached)
+	}
 	t0 := time.Now()
-	got := runGen(r, sheets, r.Pick(1, 2), r.Pick(2, 2))
-	r.Logf("CssGen: %d sheets -> %d cases in %.1fs", len(sheets), len(got), time.Since(t0).Seconds())
+	got := runGen(r, append(append([]genInput{}, sheets...), seqIn...), r.Pick(1, 2), r.Pick(2, 2))
+	r.Logf("CssGen: %d sheets + %d sequence-family members -> %d cases in %.1fs", len(sheets), len(seqIn), len(got), time.Since(t0).Seconds())
 	wg.Wait()
+	var seqCases []*Case
+	if !skipMC {
+		if cached != nil {
+			r.Set("seq_label_table", "spec/css_seq_labels.quick.json (fresh: hash of the modules and configurations)")
+		} else if len(mcMembers) == 0 {
+			r.Infra("CssMC exported no members of the sequence families")
+		} else {
+			if !r.Thorough() {
+				if os.Getenv("C12_WRITE_VOCAB") != "" {
+					writeSeqLabels(r, mcMembers)
+				} else {
+					r.Logf("spec/css_seq_labels.quick.json is stale; sample drawn after model checking")
+				}
+			}
+			seqIn, seqFam = seqSample(r, mcMembers)
+			t0 = time.Now()
+			for id, c := range runGen(r, seqIn, r.Pick(1, 2), r.Pick(3, 3)) {
+				got[id] = c
+			}
+			r.Logf("CssGen: %d sequence-family members in %.1fs", len(seqIn), time.Since(t0).Seconds())
+		}
+		seqCases = seqCasesOf(r, seqIn, seqFam, got)
+		r.Logf("sequence families: %d cases", len(seqCases))
+	}
 	sort.Slice(mcCases, func(i, j int) bool { return mcCases[i].Name < mcCases[j].Name })
 	r.Set("mc_family_sheets", len(mcCases))
 	var cases []*Case
@@ -660,12 +708,13 @@ func Run(r *core.Run) {
 			}
 		}
 		rng.Shuffle(len(casc), func(i, j int) { casc[i], casc[j] = casc[j], casc[i] })
-		if len(casc) > 350 {
-			casc = casc[:350]
+		if len(casc) > 260 {
+			casc = casc[:260]
 		}
 		mcCases = append(keep, casc...)
 	}
 	cases = append(cases, mcCases...)
+	cases = append(cases, seqCases...)
 	t0 = time.Now()
 	checkCases(r, voc, cases, st)
 	r.Logf("replayed %d cases (%d outputs) in %.1fs", st.cases, st.outputs, time.Since(t0).Seconds())
